@@ -2875,6 +2875,12 @@ func (dsc *dataStoreCommand) setRemove(keyName string, members []string) (output
 	for _, member := range members {
 		if m.remove(member) {
 			removals++
+			dsc.setDirty()
+
+			if m.count == 0 {
+				dsc.ds.data.remove(keyName)
+				break
+			}
 		}
 	}
 
